@@ -55,7 +55,14 @@ def monitor (_pid : String) (c a : List String) : String :=
     let ctor := ress.headD ""
     let calls := if mode == "new" && argS != "-" && argS != "" then argS.splitOn ";" else []
     let later := (calls.zip (ress.drop 1)).map fun (cs, r) => (isEnvelope cs, ((r.splitOn "/").drop 1).headD "")
-    let bad := Spec.ClientTLS.check (bytesOfHex pw) tls (bytesOfHex iw) ctor later (mode == "sendmail")
+    let innerS := (c.drop 3).headD "-"
+    let innerFirst : Bytes := match chunks ((innerS.drop 1).toString) with | some b :: _ => b | _ => []
+    let exts := (calls.zip (ress.drop 1)).filterMap fun (cs, r) =>
+      match cs.splitOn "/" with
+      | ["ext", n] => some (bytesOfHex n, ((r.splitOn "/").drop 1).headD "")
+      | _ => none
+    let bad := Spec.ClientTLS.check (bytesOfHex pw) tls (bytesOfHex iw) ctor later (mode == "sendmail") ++
+      (if innerS == "-" then [] else Spec.ClientTLS.checkExt tls innerFirst exts)
     if bad.isEmpty then "ok" else "bad: " ++ String.intercalate "; " bad
   | _, _ => "bad: unparsable observation"
 
